@@ -138,18 +138,22 @@ fn candidates(c: &Case) -> Vec<Case> {
 
 fn op_parser(op: &Op) -> Option<usize> {
     match op {
-        Op::Run { p, .. } | Op::Render { p, .. } | Op::Check { p } | Op::Launch { p, .. } => {
-            Some(*p)
-        }
+        Op::Run { p, .. }
+        | Op::Render { p, .. }
+        | Op::Check { p }
+        | Op::Launch { p, .. }
+        | Op::Print { p, .. } => Some(*p),
         _ => None,
     }
 }
 
 fn set_parser(op: &mut Op, np: usize) {
     match op {
-        Op::Run { p, .. } | Op::Render { p, .. } | Op::Check { p } | Op::Launch { p, .. } => {
-            *p = np
-        }
+        Op::Run { p, .. }
+        | Op::Render { p, .. }
+        | Op::Check { p }
+        | Op::Launch { p, .. }
+        | Op::Print { p, .. } => *p = np,
         _ => {}
     }
 }
@@ -299,6 +303,29 @@ fn shrink_op(op: &Op) -> Vec<Op> {
                     name: name.clone(),
                     comp: *comp,
                     cb: *cb,
+                });
+            }
+        }
+        Op::Print {
+            p,
+            argv,
+            name,
+            width,
+        } => {
+            if name.is_some() {
+                out.push(Op::Print {
+                    p: *p,
+                    argv: argv.clone(),
+                    name: None,
+                    width: *width,
+                });
+            }
+            for a in shrink_toks(argv) {
+                out.push(Op::Print {
+                    p: *p,
+                    argv: a,
+                    name: name.clone(),
+                    width: *width,
                 });
             }
         }
